@@ -164,3 +164,35 @@ def run(repo: Repo, rep: Report, tier: str) -> None:
             rep.ok("R19.4", sub, "standard loader (no custom scalar rewriting)", fn.loc(c))
         else:
             rep.violation("R19.4", sub, f"{fn.fq}|loader|{d}", f"`{d}` is not the safe standard loader", fn.loc(c))
+    # a strict JSON parse (no YAML fallback behind it) may be selected by the declared content type, never by looking at the text:
+    # flow-style YAML (`{openapi: 3.0.3, ...}`) starts like JSON and means the same document
+    from sa.cfg import CFG as _CFG, guards as _guards2
+
+    for fn in sf.functions.values():
+        jl = [c for c in calls_in(fn.node) if (dotted(c.func) or "").endswith(("json.loads", "json.load")) and c.args and isinstance(c.args[0], ast.Name)]
+        if not jl:
+            continue
+        cfg = _CFG(fn.node)
+        dom = cfg.dominators()
+        for c in jl:
+            nd = [n for n in cfg.nodes if n.kind == "stmt" and n.ast is not None and not n.copy and any(x is c for x in calls_in(n.ast))]
+            if not nd:
+                continue
+            text_var = c.args[0].id
+            # is there a YAML attempt before this call on the same path (then this is the fallback, not the selection)?
+            in_handler = any(isinstance(a, ast.ExceptHandler) for a in _anc(c))
+            sniff = [g for g, pol in _guards2(cfg, nd[0].id, dom) if g.kind == "test" and pol is not None and any(isinstance(x, ast.Name) and x.id == text_var for x in ast.walk(g.ast))]
+            sub = f"{sf.relpath}:{fn.qualname} strict JSON parse #{jl.index(c) + 1} is selected by metadata only"
+            if sniff and not in_handler:
+                rep.violation("R19.4", sub, f"{fn.fq}|format-sniffed",
+                              f"`{norm(c)[:40]}` (without a YAML fallback) is chosen by inspecting the document text (`{norm(sniff[0].ast)[:70]}`): a YAML rendering that "
+                              "merely looks like JSON (flow style) is rejected although it is the same document", fn.loc(c))
+            else:
+                rep.ok("R19.4", sub, "chosen from the content type / as the fallback after YAML", fn.loc(c))
+
+
+def _anc(n: ast.AST):
+    p = parent(n)
+    while p is not None:
+        yield p
+        p = parent(p)
